@@ -208,7 +208,7 @@ func charOracle(spec recipeSpec, tape []uint32, p *spg.Password, used int, maxTr
 // it really consumed MaxTrials candidates.
 func attemptsOracle(spec recipeSpec, tape []uint32, err error, used int, maxTrials int) string {
 	rs := setsOf(spec)
-	if spec.L < 1 || len(rs.alphabet) == 0 || spec.L > 4096 || maxTrials < 1 || maxTrials > 100000 {
+	if spec.L < 1 || len(rs.alphabet) == 0 || spec.L > 4096 || maxTrials < 1 || maxTrials > 50000000 {
 		return ""
 	}
 	_, ends := replayCandidates(rs.alphabet, spec.L, tape, maxTrials)
